@@ -12,6 +12,13 @@ NOTE = ("Trusted: Coq 8.16.1 kernel (full .vo build, vm_compute for finite sweep
         "regenerated from /repo on every run (defs.jq parse trees, native registry). Third-party crates are modelled by contract.")
 
 CLAIMED = {
+    "C07": ("Theorems: for all 256 bytes and both string kinds the reader undoes the writer's escape in one step; whole text strings "
+            "and byte strings of arbitrary bytes (control characters, quotes, DEL, invalid UTF-8) survive print-then-parse. "
+            "Correspondence: tojson, tojson|fromjson on exhaustive short strings, floats (edge + random bit patterns), integers of any "
+            "size, decimal literals, trees with arbitrary keys; the command line under -c/default/-S/--indent/--tab against the writer "
+            "model and re-read; RFC 8259 texts against Python's json. Partial: nested-value round trip, number round trip and RFC "
+            "acceptance are checked by correspondence/oracle, not yet proved.", "7.7",
+            "Coq proof (strings) + model/implementation correspondence + independent JSON parser"),
     "C02": ("Theorems: evaluating an exploded path for paths projects onto evaluating it for values (same values, order, terminator, "
             "optional parts included); .[] enumerates positions and values consistently. Correspondence: path expressions (exhaustive "
             "to depth 2 over 14 atoms, random beyond) x small inputs through [p], path(p), path_value(p), p |= u and the assignment "
